@@ -42,10 +42,11 @@ Definition show_rd (r : rd_result) : list bytes :=
               ++ (match rd_stdout r with [] => [] | t => [[76;32;115;116;100;111;117;116;32] ++ show_hs (Some t)] end)
   | RdExit code => [[82;32;101;120;105;116;32] ++ show_dec code]          (* "R exit <n>" *)
   | RdStuck => [[82;32;115;116;117;99;107]]                               (* "R stuck" *)
+  | RdNest => [[82;32;117;110;115;112;101;99]]                            (* "R unspec" *)
   end.
 
 Definition is_exit (r : rd_result) : bool :=
-  match rd_out_ r with RdExit _ | RdStuck => true | _ => false end.
+  match rd_out_ r with RdExit _ | RdStuck | RdNest => true | _ => false end.
 
 (* token printing for the `lex` operation *)
 Definition show_ptok (t : ptok) : Z :=
